@@ -19,4 +19,5 @@ SpecR == Init /\ [][NextR]_vars
 \* the same with slices (observer transitions, self-loops)
 NextR2 == NextR \/ \E v \in Ids, p \in Preds : Slice(v, p)
 NextR3 == NextR \/ \E v \in Ids : Inspect(v)
+NextR4 == NextR \/ \E prog \in ScriptFamily(Ids, Labels, Vals) : Deploy(prog)
 =============================================================================
